@@ -9,6 +9,32 @@ BASE_ASSUMPTIONS = [
 ]
 
 CHECKS = {
+    "C17": {
+        "quick": [
+            {"pkg": "lib", "entries": ["VerifC17Flat"], "params": {"N": 3, "M": 2}},
+            {"pkg": "lib", "entries": ["VerifC17Flat"], "params": {"N": 2, "M": 3}},
+            {"pkg": "lib", "entries": ["VerifC17Docs"], "params": {"KN": 1}},
+        ],
+        "thorough": [
+            {"pkg": "lib", "entries": ["VerifC17Flat"], "params": {"N": 3, "M": 3}},
+            {"pkg": "lib", "entries": ["VerifC17Docs"], "params": {"KN": 2, "INNER": 2}},
+        ],
+        "covers": ["c17.flat.none", "c17.flat.set", "c17.flat.multiset", "c17.flat.merge", "c17.flat.precision", "c17.obj.none", "c17.keyed.setkeys", "c17.void.none"],
+        "outside": "arrays longer than N; keys other than a,b,c,id,v; FNV collisions; the top-level binary with -v2=false (C14)",
+    },
+    "C18": {
+        "quick": [
+            {"pkg": "lib", "entries": ["VerifC18Patch"], "params": {"N": 2, "KEYS": 3}},
+            {"pkg": "lib", "entries": ["VerifC18Merge"], "params": {"D": 0, "EMPTYOBJ": 1}},
+        ],
+        "thorough": [
+            {"pkg": "lib", "entries": ["VerifC18Patch"], "params": {"N": 3, "KEYS": 5}},
+            {"pkg": "lib", "entries": ["VerifC18Merge"], "params": {"D": 1, "EMPTYOBJ": 1, "ROOTS": 1}},
+            {"pkg": "lib", "entries": ["VerifC18Merge"], "params": {"D": 0, "EMPTYOBJ": 1, "INNER": 2}},
+        ],
+        "covers": ["c18.patch", "c18.merge"],
+        "outside": "keys beyond {0, 10, a/b, m~n, k, a, b, c}; arrays longer than N; text-level encoding (codec axioms)",
+    },
     "C10": {
         "quick": [
             {"pkg": "v2", "entries": ["VerifC10Own"], "params": {"N": 2, "KEYS": 3}},
@@ -206,7 +232,7 @@ DEFAULT_TECHNIQUE = "bounded symbolic execution of the Go SSA with SMT (z3/cvc5)
 _NA_PENDING = "check not built yet in this session (engine exists; harness pending)"
 NOT_APPLICABLE = {
     
-    "C14": _NA_PENDING, "C17": _NA_PENDING, "C18": _NA_PENDING,
+    "C14": _NA_PENDING, 
     "C16": ("quantifies over the characters of strings as they pass through yaml.v2's scanner/resolver/emitter and encoding/json "
             "(about 10k lines of third-party reflection- and regexp-driven text code); no Go symbolic engine in the image reaches that "
             "code and modelling the codecs would assume the very thing the property states; jd's own share is a 15-line adapter"),
